@@ -221,10 +221,13 @@ func c02FlvBuild(rng *rand.Rand, idBase uint64) []c02flvItem {
 		out = append(out, c02flvItem{&flv.Tag{TagType: tagType, DataSize: uint32(len(d)), Timestamp: ts, Data: d}, pp})
 	}
 	ts := uint32(1000 + rng.Intn(5000))
+	// first AudioTagHeader byte as ipchub's own packetiser writes it: AAC (10) << 4 | rate index << 2 | 16 bit | mono/stereo
+	// (0xaf only for stereo at 44.1/48/16 kHz; mono or 5.5/11/22 kHz streams give other values)
+	ab := []byte{0xaf, 0xae, 0xab, 0xaa, 0xa7, 0xa6, 0xa3, 0xa2}[rng.Intn(8)]
 	headers := func() {
 		add(flv.TagTypeAmf0Data, 0, 0, ts, pubPkt{hasVPS: true, pureParm: true, video: true, desc: "META"}, true)
 		add(flv.TagTypeVideo, 0x17, 0, ts, pubPkt{hasSPS: true, pureParm: true, video: true, desc: "VHDR"}, false)
-		add(flv.TagTypeAudio, 0xaf, 0, ts, pubPkt{hasPPS: true, pureParm: true, video: true, desc: "AHDR"}, false)
+		add(flv.TagTypeAudio, ab, 0, ts, pubPkt{hasPPS: true, pureParm: true, video: true, desc: "AHDR"}, false)
 	}
 	headers()
 	for g := 0; g < 2+rng.Intn(3); g++ {
@@ -235,13 +238,13 @@ func c02FlvBuild(rng *rand.Rand, idBase uint64) []c02flvItem {
 		ts += 40
 		for k := 0; k < 1+rng.Intn(4); k++ {
 			if rng.Intn(3) == 0 {
-				add(flv.TagTypeAudio, 0xaf, 1, ts, pubPkt{desc: "A"}, false)
+				add(flv.TagTypeAudio, ab, 1, ts, pubPkt{desc: "A"}, false)
 			}
 			add(flv.TagTypeVideo, 0x27, 1, ts, pubPkt{video: true, hasSlice: true, desc: "P"}, false)
 			ts += 40
 		}
 	}
-	add(flv.TagTypeAudio, 0xaf, 1, ts, pubPkt{desc: "sentinel"}, false)
+	add(flv.TagTypeAudio, ab, 1, ts, pubPkt{desc: "sentinel"}, false)
 	return out
 }
 
